@@ -4,6 +4,8 @@
 export GOFLAGS=-mod=mod GOPROXY=off GOSUMDB=off GOTOOLCHAIN=local
 id=$1; prop=$2; shift 2
 cd /verif
+mkdir -p .build
+if [ -z "$SEEDRUN_LOCKED" ]; then export SEEDRUN_LOCKED=1 VERIF_NOLOCK=1; exec flock .build/repo.lock "$0" "$id" "$prop" "$@"; fi
 if [ -n "$(git -C /repo status --porcelain)" ]; then echo "REPO DIRTY - abort"; exit 2; fi
 git -C /repo apply /verif/seeded/$id/patch.diff || { echo "$id: patch does not apply"; exit 2; }
 start=$(date +%s)
